@@ -118,10 +118,11 @@ def mutations(subject, rng):
         m = list(prog[i]["modes"])
         j = rng.randrange(len(m))
         mk("negative-mode", edited(i, modes=m[:j] + [-1] + m[j + 1 :]), position=i)
-        i = rng.pick(with_modes)
-        m = list(prog[i]["modes"])
-        j = rng.randrange(len(m))
-        mk("out-of-range-mode", edited(i, modes=m[:j] + [d + rng.randrange(0, 3)] + m[j + 1 :]), position=i)
+        if not subject.get("infer_d"):  # without a declared d a larger mode index simply means a larger system
+            i = rng.pick(with_modes)
+            m = list(prog[i]["modes"])
+            j = rng.randrange(len(m))
+            mk("out-of-range-mode", edited(i, modes=m[:j] + [d + rng.randrange(0, 3)] + m[j + 1 :]), position=i)
         multi = [i for i in with_modes if len(prog[i]["modes"]) >= 2]
         if multi:
             i = rng.pick(multi)
@@ -314,7 +315,7 @@ def judge_refusal(sc):
                 base = spec.simulator_class(subject["sim"])
                 assert pq.JaxConnector not in base._supported_connector_classes()
                 connector = pq.JaxConnector()  # (TensorflowConnector would do too, but importing TensorFlow costs seconds per worker)
-            sim = cls(d=subject["d"], config=spec.build_config(subject.get("config", {})), connector=connector)
+            sim = cls(d=spec.sim_d(subject), config=spec.build_config(subject.get("config", {})), connector=connector)
             mon.watch(prog)
             kwargs = {}
             init = sc.get("initial_state")
@@ -402,6 +403,9 @@ def run_index(seed, idx, tier):
     subject = gen.finalise(gen.gen_subject(rng.randrange(2**62), sim, shots=rng.randrange(1, 9), **opts))
     # the three ways a user registers instructions
     subject["build"] = rng.weighted([("list", 5), ("context-all", 3), ("context-empty", 2)])
+    # simulators may be created without d; the number of modes is then inferred from the program
+    if spec.can_infer_d(subject) and rng.chance(0.3):
+        subject["infer_d"] = True
 
     def emit(sc):
         rec = judge(sc)
